@@ -630,8 +630,19 @@ Proof.
 Qed.
 
 (* ---- raw_strains equivalence (C10) ------------------------------------------------ *)
-(* +0, every positive finite value and +inf; what the skills push *)
+(* every 64-bit word except a NaN with a clear sign bit: zeros of both signs, negatives,
+   subnormals, positive finite values, both infinities, negative NaNs *)
+Definition push_ok (b : Z) : bool := (0 <=? b) && (b <? TWO64) && negb ((POS_INF_BITS <? b) && (b <? SIGN)).
+(* +0, every positive finite value and +inf; what well-behaved skills push *)
 Definition strain_ok (b : Z) : bool := (0 <=? b) && (b <=? POS_INF_BITS).
+
+Lemma strain_ok_push_ok b : strain_ok b = true -> push_ok b = true.
+Proof.
+  unfold strain_ok, push_ok. intros H. zb. repeat (apply andb_true_iff; split).
+  - apply Z.leb_le. lia.
+  - apply Z.ltb_lt. arith.
+  - apply negb_true_iff, andb_false_iff. left. apply Z.ltb_ge. lia.
+Qed.
 
 Lemma canon_strain_ok b : strain_ok b = true -> canon b = b.
 Proof.
@@ -646,7 +657,7 @@ Lemma filter_ext_in_Z (f g : Z -> bool) l :
 Proof. intros H. now apply filter_ext_in. Qed.
 
 Theorem raw_equiv (pushes : list Z) :
-  forallb strain_ok pushes = true -> Z.of_nat (length pushes) < SIGN ->
+  forallb push_ok pushes = true -> Z.of_nat (length pushes) < SIGN ->
   let ops := map OPush pushes in
   let '(s, ok) := run sv_empty ops in
   let r := fold_left raw_push pushes [] in
@@ -655,26 +666,24 @@ Theorem raw_equiv (pushes : list Z) :
      = Some (raw_sort_desc (raw_retain_non_zero r)).
 Proof.
   intros Hok Hlen.
-  assert (Hraw : forall l acc, fold_left raw_push l acc = acc ++ l).
+  assert (Hraw : forall l acc, fold_left raw_push l acc = acc ++ map canon l).
   { induction l as [|x l IH]; intros acc; cbn; [now rewrite app_nil_r|].
     unfold raw_push at 2. rewrite IH, <- app_assoc. reflexivity. }
-  assert (Hspec : forall l acc, forallb strain_ok l = true ->
-            spec_run acc (map OPush l) = acc ++ l).
-  { induction l as [|x l IH]; intros acc H; cbn; [now rewrite app_nil_r|].
-    cbn in H. zb. rewrite canon_strain_ok by assumption.
-    unfold spec_run in IH. rewrite IH by assumption. now rewrite <- app_assoc. }
-  assert (Hleg : forall l acc, forallb strain_ok l = true -> legal acc (map OPush l)).
+  assert (Hspec : forall l acc, spec_run acc (map OPush l) = acc ++ map canon l).
+  { induction l as [|x l IH]; intros acc; cbn; [now rewrite app_nil_r|].
+    unfold spec_run in IH. rewrite IH. now rewrite <- app_assoc. }
+  assert (Hleg : forall l acc, forallb push_ok l = true -> legal acc (map OPush l)).
   { induction l as [|x l IH]; intros acc H; cbn; [exact I|]. cbn in H. zb.
-    split; [|now apply IH]. unfold strain_ok in *. zb. arith. }
+    split; [|now apply IH]. unfold push_ok in *. zb. lia. }
   assert (Hnp : forall l, n_pushes (map OPush l) = Z.of_nat (length l)).
   { induction l as [|x l IH]; cbn [map n_pushes length]; [reflexivity|]. rewrite IH. lia. }
   pose proof (run_refines (map OPush pushes) sv_empty (Exact_Inv _ Exact_empty)
                 (Hleg _ _ Hok) ltac:(cbn [len sv_empty]; rewrite Hnp; lia)) as H.
   cbn zeta. destruct (run sv_empty (map OPush pushes)) as [s ok].
   destruct H as (Hk & HI & Habs & Hl).
-  change (abs sv_empty) with (@nil Z) in Habs. rewrite Hspec in Habs by assumption.
+  change (abs sv_empty) with (@nil Z) in Habs. rewrite Hspec in Habs.
   rewrite Hraw. cbn [app] in *. cbn [len sv_empty] in Hl. rewrite Hnp in Hl.
-  split; [exact Hk|]. split; [lia|].
+  split; [exact Hk|]. split; [rewrite map_length; lia|].
   split; [now rewrite iter_all_spec|]. split; [now rewrite into_vec_spec, Habs|].
   destruct (retain_spec s HI) as (HI1 & Habs1 & Hv1).
   unfold retain_non_zero_and_sort, transmute_into_vec.
@@ -682,21 +691,23 @@ Proof.
   unfold abs in Habs2. rewrite (abs_list_values _ Hv2) in Habs2. rewrite Habs2.
   unfold raw_sort_desc, raw_retain_non_zero. f_equal.
   fold (abs (retain_non_zero s)). rewrite Habs1, Habs.
-  apply filter_ext_in_Z. intros x Hx. rewrite forallb_forall in Hok.
-  specialize (Hok _ Hx). unfold strain_ok, nonzero, gt_zero_bits in *. zb.
-  destruct (x =? 0) eqn:E; zb; cbn.
-  - subst. reflexivity.
-  - symmetry. apply andb_true_iff. split; [apply Z.ltb_lt | apply Z.leb_le]; lia.
+  apply filter_ext_in_Z. intros x Hx. apply in_map_iff in Hx as (b & <- & Hb).
+  rewrite forallb_forall in Hok. specialize (Hok _ Hb).
+  assert (Hnan : (POS_INF_BITS <? b) && (b <? SIGN) = false).
+  { unfold push_ok in Hok. apply andb_true_iff in Hok as [_ Hn]. now apply negb_true_iff in Hn. }
+  clear Hok. unfold canon, push_is_value, nonzero, gt_zero_bits.
+  destruct (0 <? b) eqn:E1; destruct (b <? SIGN) eqn:E2; cbn; try reflexivity.
+  apply Z.ltb_lt in E1, E2.
+  replace (b =? 0) with false by (symmetry; apply Z.eqb_neq; lia). cbn.
+  replace (0 <? b) with true by (symmetry; apply Z.ltb_lt; lia). cbn.
+  symmetry. apply Z.leb_le.
+  apply andb_false_iff in Hnan as [H|H]; [apply Z.ltb_ge in H; lia | discriminate].
 Qed.
 
-(* the precondition is necessary: -1.0 and +NaN are treated differently *)
-Lemma raw_differs_refuted :
-  exists b, 0 <= b < TWO64 /\ strain_ok b = false /\
-    iter_all (fst (push sv_empty b)) <> raw_push [] b.
-Proof. exists 13830554455654793216 (* -1.0 *). vm_compute. repeat split; congruence. Qed.
-
+(* a NaN with a clear sign bit is the one value the two variants still treat differently
+   (the compact list keeps it as a value, `a > 0.0` drops it): the precondition is necessary *)
 Lemma raw_differs_nan_refuted :
-  exists b, 0 <= b < TWO64 /\ strain_ok b = false /\
+  exists b, 0 <= b < TWO64 /\ push_ok b = false /\
     transmute_into_vec (retain_non_zero_and_sort (fst (push sv_empty b)))
     <> Some (raw_sort_desc (raw_retain_non_zero (raw_push [] b))).
 Proof. exists QNAN_BITS. vm_compute. repeat split; congruence. Qed.
